@@ -321,6 +321,28 @@ def oracle_einsum(case, want_arg=False):
 
 
 # ============================================================================= running one case
+class CaseTimeout(Exception):
+    pass
+
+
+CASE_TIMEOUT_S = 10.0
+
+
+class time_limit:
+    """SIGALRM guard: a call that does not return within CASE_TIMEOUT_S raises CaseTimeout (reported as a failure)"""
+    def __enter__(self):
+        import signal
+        def on_alarm(signum, frame):
+            raise CaseTimeout(f"no result after {CASE_TIMEOUT_S:.0f} s (normal cases take milliseconds): does not terminate")
+        self.old = signal.signal(signal.SIGALRM, on_alarm)
+        signal.setitimer(signal.ITIMER_REAL, CASE_TIMEOUT_S)
+    def __exit__(self, *a):
+        import signal
+        signal.setitimer(signal.ITIMER_REAL, 0)
+        signal.signal(signal.SIGALRM, self.old)
+        return False
+
+
 def run_case(case) -> List[Tuple[str, str, str]]:
     """-> list of (clause, keyclass, detail); empty iff the contract holds on this case"""
     import fggs.indices as I
@@ -342,7 +364,7 @@ def run_case(case) -> List[Tuple[str, str, str]]:
     try:
         # requires_grad operands are evaluated with grad mode disabled, exactly as inside
         # fggs.sum_product.SumProduct.forward (the only caller that passes such tensors)
-        with warnings.catch_warnings(record=True) as wlist, torch.no_grad():
+        with warnings.catch_warnings(record=True) as wlist, torch.no_grad(), time_limit():
             warnings.simplefilter("always")
             if fn == "einsum":
                 res = I.einsum(ops, inputs, output, S)
